@@ -37,6 +37,7 @@ type Roles struct {
 
 	dispEntry     *ssa.Function
 	dispEntryDone bool
+	dispKeep      func(*ssa.Function) bool // what stays a call in the dispatch entry's view
 	reachW        map[*ssa.Function]bool
 }
 
